@@ -20,7 +20,8 @@ FE = "osaca/frontend.py"
 OS = "osaca/osaca.py"
 TRUSTED = ["bounded harness bounded/c13_report.py (independent table parser)", "pyvc for the small warning-text functions"]
 ASSUMPTIONS = ["decisive part is bounded: corpus = shipped examples/test kernels + generated kernels x models x options (see harness docstring)",
-               "report formatting (str.format) is outside the prover's subset"]
+               "character-level rendering (str.format widths, _get_port_pressure's cell text) is outside the prover's subset: the proved units state WHICH value is handed to WHICH cell/row (format arguments and helper arguments), the printed characters are compared by the bounded unit",
+               "combined_view / loopcarried_dependencies: kernels of 2 lines, 0-3 dependencies (all numbers symbolic) - label Pb"]
 RULE = "corpus kernels x models x {--fixed, optimal} x {--ignore-unknown} x {--arch given or not}"
 
 
@@ -306,6 +307,64 @@ def combined_view_unit(res):
     return res
 
 
+def pressure_cells_unit(res):
+    """Pb: Frontend._get_port_pressure (real code) on a 3-port model with symbolic pressures, every subset of used ports, with and
+    without per-column separators: after a leading separator the line consists, in port order, of one cell per port followed by that column's separator; cell i is
+    blank iff pressure i is 0 and port i is not among the used ports, otherwise it is a formatted piece whose value argument is
+    pressure i (never another port's).  Width/precision of the rendering are opaque (bounded unit)."""
+    import itertools, re as _re
+    ex = Engine([REPO + "/" + FE])
+    ex.no_init |= {"Frontend"}
+    ports = ["0", "1", "2D"]
+    P = [z3.Real(f"pressure{i}") for i in range(3)]
+    marks = ["<a>", "<b>", "<c>"]
+    for r_ in range(4):
+        for used in itertools.combinations(ports, r_):
+            for seps in (marks, "<s>"):
+                def run(used=used, seps=seps):
+                    ex.abstract["get_ports"] = lambda ex_, so, a, kw: list(ports)
+                    fe = SObj("Frontend", _machine_model=SObj("MachineModel"))
+                    return ex.call_method("Frontend", "_get_port_pressure", fe, [[SNum(x, False) for x in P], [5, 4, 6], list(used), list(seps) if isinstance(seps, list) else seps])
+
+                paths = ex.explore(run, [x >= 0 for x in P])
+
+                def post(v, p, used=used, seps=seps):
+                    pieces = getattr(v, "parts", None)
+                    if pieces is None:
+                        if isinstance(v, str):
+                            pieces = [v]
+                        else:
+                            raise Unsupported("line is not assembled from formatted pieces: contract not applicable")
+                    sep = seps if isinstance(seps, list) else [seps] * 3
+                    toks = []
+                    for x in pieces:
+                        if isinstance(x, str):
+                            toks += _re.findall(r"<[abcs]>", x)
+                        elif hasattr(x, "args"):
+                            for a in x.args:
+                                if isinstance(a, str):
+                                    toks += _re.findall(r"<[abcs]>", a)
+                                elif isinstance(a, SNum):
+                                    hit = [i for i in range(3) if z3.eq(z3.simplify(real_term(a)), P[i])]
+                                    toks.append(("v", hit[0]) if hit else ("v", None))
+                    # expected: a leading separator (which one is layout, not constrained), then per port [value] separator
+                    if not toks or toks[0] not in sep:
+                        return False
+                    rest, g = toks[1:], []
+                    for i in range(3):
+                        shown = bool(rest) and rest[0] == ("v", i)
+                        if shown:
+                            rest = rest[1:]
+                        if not rest or rest[0] != sep[i]:
+                            return False
+                        rest = rest[1:]
+                        g.append(z3.BoolVal(shown) == z3.Not(z3.And(P[i] == 0, z3.BoolVal(ports[i] not in used))))
+                    return z3.And(g) if not rest else False
+
+                res.add_paths(paths, post, kind=f"used={','.join(used) or '-'}/{'columns' if isinstance(seps, list) else 'single'}", label="Pb")
+    return res
+
+
 def lcd_list_unit(res):
     """Pb: Frontend.loopcarried_dependencies (the LCD list of the text report) for 0-3 loop-carried dependencies with symbolic
     latencies: exactly one row per dependency (in any order), each showing the first member's line number, the
@@ -362,6 +421,7 @@ def units(tier):
         Unit("C13/frontend/_get_lcd_cp_ports", cells_unit, "P", [(FE, "Frontend._get_lcd_cp_ports"), (FE, "Frontend._get_node_by_lineno")], decisive=False),
         Unit("C13/full_analysis_dict(fields = line attributes, summary = totals)", dict_unit, "Pb", [(FE, "Frontend.full_analysis_dict"), (FE, "Frontend._selected_port_uops")], decisive=False),
         Unit("C13/combined_view(rows, totals, missing-data branch; cell helpers abstract)", combined_view_unit, "Pb", [(FE, "Frontend.combined_view"), (FE, "Frontend._is_comment")], decisive=False),
+        Unit("C13/_get_port_pressure(cell i shows pressure i or is blank)", pressure_cells_unit, "Pb", [(FE, "Frontend._get_port_pressure")], decisive=False),
         Unit("C13/loopcarried_dependencies(LCD list rows)", lcd_list_unit, "Pb", [(FE, "Frontend.loopcarried_dependencies")], decisive=False),
         Unit("C13/inspect/warning-flags-and-report-wiring", _inspect_unit(), "P", [(OS, "inspect")], decisive=False),
         bounded_unit("C13/report-vs-dict", "c13_report", [(FE, "Frontend.combined_view"), (FE, "Frontend.full_analysis_dict"), (FE, "Frontend.loopcarried_dependencies"),
